@@ -124,7 +124,8 @@ Definition real_tbl : list (string * Z) :=
   [("app"%string, 12576353548093493342); ("api"%string, 1278387062678664129); ("db"%string, 3655516180604889306);
    ("env"%string, 17939250081907971096); ("prod"%string, 18271293127389077287); ("dev"%string, 12386325532664887238);
    ("a.b"%string, 16101271026004631470); ("a_b"%string, 1091222415523631753); ("x"%string, 5748889492429595544);
-   ("type"%string, 14828460315236136068); ("datadog"%string, 18359847025787207198)].
+   ("type"%string, 14828460315236136068); ("datadog"%string, 18359847025787207198);
+   ("v"%string, 1116989248156173354); ("5"%string, 16141698810441253349); ("__ttl_days__"%string, 4989000747779292129)].
 Definition rl (a b : string) : label := (a, b).
 Definition real_U (x : label) : Prop :=
   x = rl "app" "api" \/ x = rl "app" "db" \/ x = rl "env" "prod" \/ x = rl "env" "dev" \/ x = rl "api" "app".
